@@ -235,7 +235,7 @@ func init() {
 		ID: "C41",
 		Rule: "rot: fake Resolver returning 1..4 loopback addresses whose endpoints accept / refuse (bound, not listening) / hang (full backlog), every accept/refuse pattern, " +
 			"rotation counter left natural or set through an exported setter to values around multiples of n and around 2^32 (wrap-around), 1..3 consecutive dials; " +
-			"to: timeout paths (deadline already passed, hanging connect, timer while waiting for a slot, hanging resolver) with and without DNS resolution; " +
+			"to: timeout paths (deadline already passed, hanging connect, timer while waiting for a slot, waiting 3.6 s for the only slot and THEN hanging in connect - the timeout still counts from the call, hanging resolver) with and without DNS resolution; " +
 			"sem: Concurrency N in 1..3 with N hanging dials holding every slot, further dials to an accepting endpoint that must time out without connecting, waiters that must get the freed slots. " +
 			"non-trivial = rotation over >=2 addresses with a refusing one / any sem or timeout scenario; distinct = distinct input",
 		Parallel:   true,
@@ -417,6 +417,46 @@ func init() {
 						extra = &Verdict{VSpec, "slot-leaked", fmt.Sprintf("%d semaphore slots still taken after every dial returned", l)}
 					}
 					line = Line("trydial", B("0"), B("1"), B("t"), B("c"))
+				case "waithang":
+					// Concurrency=1: the only slot is held for W by a dial to the hanging endpoint; the dial under test
+					// (timeout T > W) first waits for the slot, then hangs in connect: it must still return T after the
+					// CALL (+ slack), not T after it got the slot.  W exceeds the slack so that the difference is visible.
+					W := c41Slack + 600*time.Millisecond
+					T = W + 400*time.Millisecond
+					lo, hi = T-10*time.Millisecond, T+c41Slack
+					d, _, _ := mk(1, "x", 0, false)
+					d.DisableDNSResolution = via == "nodns"
+					hangAddr := fmt.Sprintf("%s:%d", c41IP(0), hg.port)
+					target := hangAddr
+					if via != "nodns" {
+						d.Resolver = c41Resolver{n: 1}
+						target = fmt.Sprintf("waithang.test:%d", hg.port)
+					}
+					wantUp = hangAddr
+					holder := make(chan c41Result, 1)
+					go func() {
+						holder <- c41Dial(func() (net.Conn, error) { return d.DialTimeout(target, W) }, W+8*time.Second)
+					}()
+					okHeld := false
+					for t0 := time.Now(); time.Since(t0) < time.Second; time.Sleep(time.Millisecond) {
+						if l, _ := fasthttp.VerifTCPDialerSem(d); l == 1 {
+							okHeld = true
+							break
+						}
+					}
+					tStart := time.Now()
+					r = c41Dial(func() (net.Conn, error) { return d.DialTimeout(target, T) }, T+W+8*time.Second)
+					h := <-holder
+					if !okHeld || !h.end.After(tStart.Add(W/2)) {
+						return nil // the slot was not held while the dial under test waited: not the scenario
+					}
+					if h.class != "timeout" || h.upstream != hangAddr {
+						extra = &Verdict{VSpec, "hanging-dial-wrong-error", fmt.Sprintf("slot-holding dial returned %s upstream %q", h.class, h.upstream)}
+					}
+					if l, _ := fasthttp.VerifTCPDialerSem(d); l != 0 && extra == nil {
+						extra = &Verdict{VSpec, "slot-leaked", fmt.Sprintf("%d semaphore slots still taken after every dial returned", l)}
+					}
+					line = Line("trydial", B("0"), B("1"), B("w"), B("t"))
 				case "resolverhang":
 					via = "dns"
 					d, addr, _ := mk(2, "slowdns", ag.port, true)
@@ -521,6 +561,13 @@ func init() {
 					emit("to", B("semwait"), N(80+r.Intn(200)), B(via))
 				}
 				emit("to", B("resolverhang"), N(60+r.Intn(200)), B("dns"))
+			}
+			// wait for a slot, then hang in connect (takes about 4 s; runs beside the other cases)
+			emit("to", B("waithang"), N(0), B("nodns"))
+			emit("to", B("waithang"), N(0), B("dns"))
+			if tier == "thorough" {
+				emit("to", B("waithang"), N(1), B("nodns"))
+				emit("to", B("waithang"), N(1), B("dns"))
 			}
 			for i := 0; i < 6*mult; i++ {
 				emit("sem", N(1+r.Intn(3)), N(1+r.Intn(3)), N(r.Intn(4)))
